@@ -122,8 +122,10 @@ CLAIMED = {
         note=COMMON_NOTE + "Interleavings finer than the schedule points are not explored; the ready-list capacity >= #pipes precondition is the code's own.",
         design="§8 C08"),
     "C09": dict(
-        engine="M4 Rpq",
-        technique="Lean 4: the queue invariant of C08 extended with a `cancel` action (drop of a future parked at an await); tie: turnstile "
+        engine="M4 Rpq + M15 SendTx",
+        technique="Lean 4: the queue invariant of C08 extended with a `cancel` action (drop of a future parked at an await), and an "
+                  "invariant over all histories of the frame-by-frame send transaction of DEALER and ROUTER with dropped futures (configuration "
+                  "re-extracted from the source on every run); tie: turnstile "
                   "schedules with injected cancellations on the real ReadyPipeQueue, run in lock-step with the model; stack level: send()/"
                   "send_multipart()/recv()/recv_multipart() futures of real PUSH/PULL, DEALER/ROUTER, ROUTER/DEALER, DEALER/DEALER pairs "
                   "polled 1..6 times and dropped, under back-pressure with peer traffic in between, judged by a loss/duplicate/tear/order/"
@@ -131,9 +133,13 @@ CLAIMED = {
         text="Proof over the queue model: dropping a future that is parked at an await (a consumer waiting for a ready entry, a producer "
              "waiting for channel space) or not yet polled preserves the invariant (reservation rolled back, no token lost), changes no "
              "channel, no log of accepted/taken/returned items, and a cancelled send has written nothing; the arm/re-arm awaits are never "
-             "cancellation points; the invariant survives any mix of steps and cancellations. 5 theorems. KNOWN FINDING: a use-after-free in "
+             "cancellation points; the invariant survives any mix of steps and cancellations. Proof over the send-transaction model (M15): for "
+             "every history of frames, last frames, dropped futures and send_multipart calls the peer reads only messages the application "
+             "gave, whole and in order, nothing is left half-sent, and the transaction is idle whenever the application is not in the "
+             "middle of a message; counterexamples for a transaction emptied after the await and for frames handed over one by one (the "
+             "ROUTER before its repair). 10 theorems. KNOWN FINDING: a use-after-free in "
              "the fibre dependency's async mpmc (dangling waiter) is reproduced by a valgrind witness. Partial: socket-level API futures "
-             "(DEALER pending queue and send transaction, ROUTER sends, PUSH pending parts, stashes of recv_multipart) are not part of the "
+             "(DEALER pending queue, ROUTER permits, PUSH pending parts, stashes of recv_multipart) are not part of the "
              "theorems: they are exercised by the sampled cancel scripts on real sockets (every message whole, none twice, accepted ones "
              "arrive in order, refused ones do not, the sockets stay usable); REQ/REP state claims under dropped futures are modelled and "
              "proved in C10.",
